@@ -61,8 +61,12 @@ def ser_token(S, L=None):
     return d
 
 
+PRE_LIKE = ("pre", "textarea", "listing")
+
+
 def ser_havoc(S, L):
     L.in_cdata = S.bool("in_cdata")
+    L.pre_started = S.bool("pre_started")       # the previous token was the start tag of an HTML pre/textarea/listing
     L.self.fields["errors"] = S.anylist("errors_l")
 
 
@@ -88,17 +92,25 @@ def step_text(yielded, pre, self, token, in_cdata):
     data = token["data"]
     if in_cdata != pre.in_cdata:
         return False
+    # the parser drops a newline that directly follows <pre>, <textarea>, <listing>: a text that starts with one is
+    # written with that newline doubled
+    lead = "\n" if (pre.pre_started and data.startswith("\n")) else ""
     if pre.in_cdata:
-        return out == data and (("</" not in data) or error_recorded(pre, self))
+        return out == lead + data and (("</" not in data) or error_recorded(pre, self))
     if t == "SpaceCharacters":
-        return out == data          # whitespace-only token (walker contract, C11): nothing to escape
-    return (out == data.replace("&", "&amp;").replace(">", "&gt;").replace("<", "&lt;")
+        return out == lead + data          # whitespace-only token (walker contract, C11): nothing to escape
+    return (out == lead + data.replace("&", "&amp;").replace(">", "&gt;").replace("<", "&lt;")
             and "<" not in out and ">" not in out)
 
 
-def step_raw_text_state(pre, token, in_cdata, self):
-    """in_cdata is true exactly from the start tag of a raw-text element to its end tag"""
+def step_raw_text_state(pre, token, in_cdata, self, pre_started):
+    """in_cdata is true exactly from the start tag of a raw-text element to its end tag; pre_started exactly after the
+    start tag of an HTML pre, textarea or listing element"""
     t = token["type"]
+    is_pre = ((t == "StartTag" or t == "EmptyTag") and token["name"] in PRE_LIKE
+              and (token["namespace"] is None or token["namespace"] == HTML_NS))
+    if pre_started != is_pre:
+        return False
     if t == "StartTag" or t == "EmptyTag":
         # raw text elements are HTML elements: a foreign <style>/<script> is ordinary markup to the parser
         if token["name"] in RAWTEXT and not self.escape_rcdata and (token["namespace"] is None or token["namespace"] == HTML_NS):
@@ -152,8 +164,10 @@ def step_attribute_values(yielded, pre, self, token):
         q = rest[0]
         shown = rest[1]
         return (shown == (v.replace("'", "&#39;") if q == "'" else v.replace("\"", "&quot;")) and q not in shown)
-    # unquoted: only allowed when the mode's test found nothing that needs quoting, and never for empty values
-    return (len(rest) >= 1 and rest[0] == v and value != "" and self.quote_attr_values != "always")
+    # unquoted: only allowed when the mode's test found nothing that needs quoting, and never for empty values; what
+    # follows an unquoted value must not be read as part of it (a bare "/" would be: `value=a/>` gives the value "a/")
+    return (len(rest) >= 1 and rest[0] == v and value != "" and self.quote_attr_values != "always"
+            and (len(rest) == 1 or rest[1] != "/"))
 
 
 @contract(SER + ".serialize")
@@ -185,6 +199,9 @@ def _step_replay(inputs, ghost, clause):
     from html5lib.serializer import HTMLSerializer
     token = ghost.get("loop_element")
     in_cdata = bool(ghost.get("loop_state.in_cdata"))
+    pre_started = bool(ghost.get("loop_state.pre_started"))
+    if in_cdata and pre_started:
+        return None                     # no token sequence reaches that state (pre is not a raw text element)
     opts = {k: v for k, v in inputs["self"].items() if k in HTMLSerializer.options}
     if in_cdata and opts.get("escape_rcdata"):
         return None                     # no token sequence reaches that state
@@ -194,6 +211,8 @@ def _step_replay(inputs, ghost, clause):
     def walker():
         if in_cdata:
             yield {"type": "StartTag", "name": "style", "data": {}}
+        if pre_started:
+            yield {"type": "StartTag", "name": "pre", "data": {}}
         marks["errors"] = list(s.errors)
         marks["at"] = len(out)
         yield token
@@ -206,8 +225,10 @@ def _step_replay(inputs, ghost, clause):
     after = out[marks["end"]:] == ["<"]
     errors_after = list(s.errors)
     s.errors = errors_after[:len(errors_after)]       # the probe never records an error unless '</'
-    pre = types.SimpleNamespace(in_cdata=in_cdata, self=types.SimpleNamespace(errors=marks["errors"]))
-    env = dict(yielded=yielded, pre=pre, self=s, token=token, in_cdata=after)
+    pre = types.SimpleNamespace(in_cdata=in_cdata, pre_started=pre_started, self=types.SimpleNamespace(errors=marks["errors"]))
+    is_pre = (token.get("type") in ("StartTag", "EmptyTag") and token.get("name") in PRE_LIKE
+              and token.get("namespace") in (None, HTML_NS))
+    env = dict(yielded=yielded, pre=pre, self=s, token=token, in_cdata=after, pre_started=is_pre)
     import inspect
     v = clause.fn(**{p: env[p] for p in inspect.signature(clause.fn).parameters})
     return {"observed": "serialize yields %r for %r (raw text before: %r, after: %r, errors %r)" % (yielded, token, in_cdata, after, errors_after),
@@ -258,4 +279,6 @@ class SerializeTagThenText:
         ns = treewalker[0]["namespace"]
         if name in RAWTEXT and not self.escape_rcdata and (ns is None or ns == HTML_NS):
             return out == tag + data and (("</" not in data) or len(self.errors) > 0)
+        if name in PRE_LIKE and (ns is None or ns == HTML_NS) and data.startswith("\n"):
+            tag = tag + "\n"
         return out == tag + data.replace("&", "&amp;").replace(">", "&gt;").replace("<", "&lt;")
